@@ -22,6 +22,23 @@ What is decided here (functions of cflib/crazyflie/swarm.py, plus SyncCrazyflie 
                          member link is left open
   close_links.* / context-manager   every link closed once in order; `with Swarm(..)` opens and closes
 
+  (extension round)
+  init.order / sequential.order   every order in which three URIs can be given (the fixed URIS are neither ascending nor descending)
+  factory.default / factory.cached   _Factory / CachedCfFactory: one connection and one Crazyflie of its own per URI; opening member i
+                         connects exactly its own Crazyflie to its own URI
+  parallel*.overlapping-actions.*   explicit schedule in which the actions really overlap in time (stack-like pre-emption of every action
+                         by the next member's whole thread body) - see nested_threads
+  parallel_safe.overlapping-calls.*   two swarm-wide calls on one swarm that overlap in time (the second is made from inside an action
+                         of the first): each call reports its own errors only
+  open_links.sync.retry  history: failed open_links, then a successful one, then a refused one (real SyncCrazyflie members); a link
+                         fails by connection_failed or by a disconnected before the connection was established
+  get_estimated_positions.* / reset_estimators.real-wait.* / wait_for_position_estimator*   the library's own swarm-wide actions over the
+                         REAL SyncLogger (stub Crazyflie / LogConfig): once per member, on that member's Crazyflie, logging removed
+                         before return, raise iff a member failed, positions = first sample of the member's own Crazyflie
+  parallel_safe.missing-entry.n2   thorough tier, RED on the unchanged tree (candidate finding): a dictionary without the entry of a later
+                         member ends the call with KeyError while the threads of the earlier members are not joined
+  *.n4.failing-<subset>  thorough tier: swarm size 4, one contract per subset of failing members, every schedule (1270 each)
+
 Thread model (assumption of the design section: "Thread(target=f,args=a).start(); join() runs f(*a) exactly once and
 completes before join returns; list.append is atomic"): c.model_threads replaces threading.Thread in both back ends by a
 model whose target runs atomically at a scheduler-chosen point between start() and the return of join(); the symbolic
@@ -29,30 +46,43 @@ back end explores every such schedule (every order of the thread bodies, every p
 start()/join() calls), the native back end replays the chosen schedule deterministically.
 
 NOT covered (and why):
-  * pre-emption INSIDE a thread body (two members interleaving statement by statement): the bodies only share the
-    reporter (flag store + list.append, both atomic under the GIL - assumption), so body-level atomicity loses no
-    outcome, but this is an argument, not a proof; real OS threads / timing are never run;
-  * swarm sizes above 3 and argument lists longer than 2 (bounded, see `bounded=` of each contract);
-  * URIs are three concrete distinct strings (the code only hashes/compares them); duplicate URIs only for __init__;
-  * argument dictionaries that lack the entry of a member (KeyError in the calling thread - shown for
-    _process_args_dict only) and actions raising a BaseException that is not an Exception;
+  * arbitrary pre-emption INSIDE a thread body: beyond the atomic bodies only the stack-like overlap of the actions is run
+    (overlapping-actions: action i is pre-empted on entry by the whole body of the next thread).  A pre-emption between two
+    statements of Reporter.report_error (flag store, list.append - both atomic under the GIL, assumption) cannot be
+    scheduled through a stub because nothing external is called there; real OS threads / timing are never run;
+  * swarm sizes above 4 for the threaded calls (3 in the quick tier; 6 for __init__ / sequential / close_links) and argument lists
+    longer than 3 (bounded, see `bounded=` of each contract): the member loops iterate a dictionary of members, for which the
+    engine has no loop-invariant rule (only `while` and `for .. in range`), so the size stays enumerated;
+  * URIs are fixed concrete distinct strings (the code only hashes/compares them); duplicate URIs only for __init__; the URIs given
+    as a set (iteration order chosen by the interpreter) are not passed in - every order of a list/tuple of three is;
+  * actions raising a BaseException that is not an Exception (SystemExit, KeyboardInterrupt): such an error is not reported by the
+    member thread, parallel_safe does not raise - outside the failure model of the property as read here;
+  * close_link of a member raising during the clean-up of a failed open_links (the remaining links are then not closed): SyncCrazyflie's
+    close_link does not raise in the modelled environment;
   * sequential() with a failing action: the property gives no error rule; the code behaviour (abort at the first
     failing member) is recorded in `sequential.failing-action.n3`;
-  * get_estimated_positions / reset_estimators (not part of the property; need SyncLogger).
+  * the variance sequences of wait_for_position_estimator are concrete (plus one contract with symbolic constant levels); SyncLogger and
+    LogConfig themselves are under contract in C05;
+  * SyncCrazyflie.is_params_updated / wait_for_params: not used by Swarm; under contract in C02.
 """
 from pyvc.api import contract
 
 SWM = 'cflib.crazyflie.swarm'
 SCF = 'cflib.crazyflie.syncCrazyflie'
-URIS = ['radio://0/80/2M/E7E7E7E701', 'radio://0/80/2M/E7E7E7E702', 'radio://0/80/2M/E7E7E7E703']
-ARGLENS = [2, 0, 1]          # length of the argument-dictionary entry of member i
+# the given order is deliberately neither ascending nor descending (an implementation that sorts the URIs, or iterates a set of them,
+# does not keep "the iteration order of the given URIs"); members 3.. are only used by the larger (mostly thorough-tier) sizes
+URIS = ['radio://0/80/2M/E7E7E7E702', 'radio://0/80/2M/E7E7E7E701', 'radio://0/80/2M/E7E7E7E703',
+        'radio://1/40/1M/E7E7E7E7E0', 'usb://0', 'radio://0/80/2M/E7E7E7E700']
+ARGLENS = [2, 0, 1, 3, 1, 2]          # length of the argument-dictionary entry of member i
+ACT_EXC = ['RuntimeError', 'Exception', 'KeyError', 'ValueError', 'OSError', 'RuntimeError']   # class of the error raised by member i's action
 
 P_ONCE = ('a swarm-wide action runs exactly once per Crazyflie, receiving that Crazyflie\'s connection as first argument '
           'followed by its own entry of the argument dictionary')
 P_SEQ = P_ONCE + '; sequential actions run one at a time in the iteration order of the given URIs'
 P_PAR = P_ONCE + '; parallel_safe returns only after every action has finished and raises iff at least one action raised, chaining one of the raised errors'
 P_OPEN = 'if opening any link fails, every link is closed again and the failure is raised; a swarm cannot be opened twice'
-B_N = 'swarm size %d (sizes 0..3 enumerated); argument-dictionary entries of length 2, 0, 1; three fixed distinct URIs'
+B_N = 'swarm size %d (sizes 0..3 enumerated, 4 in the thorough tier); argument-dictionary entries of length 2, 0, 1, 3; fixed distinct URIs'
+B_SMALL = 'swarm size %d (sizes 0..4 enumerated, 6 in the thorough tier); argument-dictionary entries of length 2, 0, 1, 3, 1, 2; fixed distinct URIs'
 
 
 def decide(I, v):
@@ -90,8 +120,9 @@ def expected_args(i, prefix='a'):
     return '(scf%d, %s)' % (i, ''.join('%s%d[%d], ' % (prefix, i, j) for j in range(ARGLENS[i])))
 
 
-def action_stub(c, scfs, name='action', tag='act', failing=True, fails=None):
-    """the swarm-wide action: a recording stub; member i's invocation raises RuntimeError('<tag>:<i>') iff <tag>_fail<i>"""
+def action_stub(c, scfs, name='action', tag='act', failing=True, fails=None, classes=ACT_EXC):
+    """the swarm-wide action: a recording stub; member i's invocation raises ACT_EXC[i]('<tag>:<i>') iff <tag>_fail<i> (different
+    Exception classes, so that an implementation that only reports some classes of errors is seen)"""
     if fails is None:
         fails = [c.bool('%s_fail%d' % (tag, i)) for i in range(len(scfs))] if failing else []
 
@@ -100,7 +131,7 @@ def action_stub(c, scfs, name='action', tag='act', failing=True, fails=None):
             return None
         i = [k for k, s in enumerate(scfs) if s is args[0]][0]
         if decide(I, fails[i]):
-            c.raiser('RuntimeError', '%s:%d' % (tag, i))()
+            c.raiser(classes[i], '%s:%d' % (tag, i))()
     return c.ext(name, returns={'()': body})
 
 
@@ -108,10 +139,10 @@ def any_fail(n, tag='act'):
     return '(%s)' % (' or '.join('%s_fail%d' % (tag, i) for i in range(n)) or 'False')
 
 
-def cause_is_raised_here(n, tag='act', cls='RuntimeError'):
-    """the chained error is the error raised by a member that failed in this call"""
+def cause_is_raised_here(n, tag='act', cls=None):
+    """the chained error is the error raised by a member that failed in this call (member i's action raises ACT_EXC[i])"""
     return '(%s)' % (' or '.join("(%s_fail%d and isinstance(exc.__cause__, %s) and exc.__cause__.args == ('%s:%d',))"
-                                 % (tag, i, cls, tag, i) for i in range(n)) or 'False')
+                                 % (tag, i, cls or ACT_EXC[i], tag, i) for i in range(n)) or 'False')
 
 
 def ensure_each_action_once(c, n, name='action', prefix='a', with_args=True):
@@ -142,10 +173,10 @@ def ensure_threads(c, n, name='action', prefix='a', with_args=True):
 
 # ------------------------------------------------------------------------- __init__
 
-def _init(n):
+def _init(n, **opts):
     @contract('C19', 'init.n%d' % n, [SWM + ':Swarm.__init__'],
               clause='the swarm has exactly one member per given URI, constructed by the factory from that URI, kept in the '
-                     'iteration order of the given URIs, and is not open', bounded=B_N % n)
+                     'iteration order of the given URIs, and is not open', bounded=B_SMALL % n, **opts)
     def k(c):
         factory, uris, scfs = make_factory(c, n)
         c.call(SWM + ':Swarm', c.list(uris), factory)
@@ -259,20 +290,22 @@ def reporter(c):
 def _wrapper(nargs):
     @contract('C19', 'thread_function_wrapper.args%d' % nargs, [SWM + ':Swarm._thread_function_wrapper', SWM + ':Swarm.Reporter.report_error'],
               clause='the body of a member thread calls the action exactly once with the connection and the member\'s arguments; '
-                     'an Exception raised by the action is appended to the reporter of this call and does not escape the thread',
+                     'an Exception raised by the action (of whatever class: RuntimeError, Exception itself, KeyError, StopIteration) is appended to '
+                     'the reporter of this call and does not escape the thread',
               bounded='%d member arguments (0..2 enumerated)' % nargs)
     def k(c):
         swarm, uris, scfs = new_swarm(c, 1)
         e0 = an_error(c, 'e0', 'earlier')
         with_earlier = c.choice('earlier_error', [False, True])
         fail = c.choice('action_fails', [False, True])
+        ecls = c.choice('error_class', ['RuntimeError', 'Exception', 'KeyError', 'StopIteration']) if fail else 'RuntimeError'
         rep = c.new(SWM + ':Swarm.Reporter')
         c.let('rep', rep)
         if with_earlier:
             c.call((rep, 'report_error'), e0)
         c.let('base', 1 if with_earlier else 0)
         c.let('fail', fail)
-        action = action_stub(c, scfs, fails=[fail])
+        action = action_stub(c, scfs, fails=[fail], classes=[ecls])
         xs = [c.int('x%d' % i) for i in range(nargs)]
         c.reset_trace()
         c.call((swarm, '_thread_function_wrapper'), action, rep, scfs[0], *xs)
@@ -285,7 +318,7 @@ def _wrapper(nargs):
         if with_earlier:
             c.ensure('earlier-error-kept-first', 'rep.errors[0] is e0')
         c.ensure('the-raised-error-is-appended',
-                 "[(isinstance(e, RuntimeError), e.args) for e in rep.errors[base:]] == ([(True, ('act:0',))] if fail else [])")
+                 "[(isinstance(e, %s), e.args) for e in rep.errors[base:]] == ([(True, ('act:0',))] if fail else [])" % ecls)
     return k
 
 
@@ -295,9 +328,9 @@ for _k in (0, 1, 2):
 
 # ------------------------------------------------------------------------- sequential
 
-def _sequential(n, with_args):
+def _sequential(n, with_args, **opts):
     @contract('C19', 'sequential.%sn%d' % ('' if with_args else 'noargs.', n), [SWM + ':Swarm.sequential', SWM + ':Swarm._process_args_dict'],
-              clause=P_SEQ, bounded=B_N % n)
+              clause=P_SEQ, bounded=B_SMALL % n, **opts)
     def k(c):
         swarm, uris, scfs = new_swarm(c, n)
         ad = args_dict(c, n, uris)[0] if with_args else None
@@ -329,7 +362,7 @@ def sequential_failing(c):
     c.ensure('a-prefix-in-order-each-at-most-once', '[e[1] for e in trace] == [%s]' % ', '.join(expected_args(i) for i in range(min(k, 3))))
     c.ensure('earlier-actions-did-not-fail', 'not %s' % any_fail(max(k - 1, 0)))
     if c.get('raised') is not None:
-        c.ensure('the-actions-own-exception', "raised == 'RuntimeError' and exc.args == ('act:%d',) and act_fail%d" % (k - 1, k - 1))
+        c.ensure('the-actions-own-exception', "raised == '%s' and exc.args == ('act:%d',) and act_fail%d" % (ACT_EXC[k - 1], k - 1, k - 1))
     else:
         c.ensure('all-ran', 'len(trace) == 3 and not %s' % any_fail(3))
 
@@ -481,22 +514,25 @@ def open_twice(c):
     c.ensure('reopen-after-close', 'raised is None and swarm._is_open is True and len(sent("scf0.open_link")) == 1 and len(sent("scf1.open_link")) == 1')
 
 
-def _close_links(n):
+def _close_links(n, **opts):
     @contract('C19', 'close_links.n%d' % n, [SWM + ':Swarm.close_links', SWM + ':Swarm.__exit__'],
-              clause='closing closes the link of every member exactly once (in the order of the URIs) and leaves the swarm not open',
-              bounded='swarm size %d (sizes 0..3 enumerated)' % n)
+              clause='closing - by close_links or by leaving the `with` block, normally or by an exception - closes the link of every member '
+                     'exactly once (in the order of the URIs) and leaves the swarm not open; an exception in flight is not swallowed',
+              bounded='swarm size %d (sizes 0..4 enumerated, 6 in the thorough tier)' % n, **opts)
     def k(c):
         swarm, uris, scfs = new_swarm(c, n)
-        how = c.choice('how', ['close_links', '__exit__'])
+        how = c.choice('how', ['close_links', '__exit__', '__exit__-by-exception'])
         if how == 'close_links':
             c.call((swarm, 'close_links'))
-        else:
+        elif how == '__exit__':
             c.call((swarm, '__exit__'), None, None, None)
+        else:       # the with block is left by an exception: the links are closed all the same and the exception is not swallowed
+            c.call((swarm, '__exit__'), c.ext('exc_type'), c.ext('exc_value'), c.ext('exc_traceback'))
         c.ensure('no-exception', 'raised is None')
         c.ensure('every-link-closed-once-in-order', 'calls() == (%s)' % ''.join('"scf%d.close_link", ' % i for i in range(n)))
         c.ensure('no-arguments', 'all(e[1:] == ((), {}) for e in trace)')
         c.ensure('not-open', 'swarm._is_open is False')
-        if how == '__exit__':
+        if how != 'close_links':
             c.ensure('exit-does-not-swallow-exceptions', 'not result')
     return k
 
@@ -525,56 +561,106 @@ def context_manager(c):
 
 # ------------------------------------------------------------------------- open_links over real SyncCrazyflie members
 
-def _open_sync(n):
-    @contract('C19', 'open_links.sync.n%d' % n,
-              [SWM + ':Swarm.open_links', SWM + ':Swarm.close_links', SWM + ':Swarm.parallel_safe',
-               SCF + ':SyncCrazyflie.__init__', SCF + ':SyncCrazyflie.open_link', SCF + ':SyncCrazyflie.close_link', SCF + ':SyncCrazyflie.is_link_open',
-               SCF + ':SyncCrazyflie._connected', SCF + ':SyncCrazyflie._connection_failed', SCF + ':SyncCrazyflie._disconnected'],
+def sync_members(c, n, st):
+    """n REAL SyncCrazyflie members scf<i> over stub Crazyflie objects cf<i> with real callback lists.  cf<i>.open_link answers through the
+    callbacks SyncCrazyflie registered: in attempt st['attempt'] == 0 it fails iff open_fail<i> - by connection_failed, or (st['failmode'] == 'disconnected') by a
+    disconnected before the connection was established; in later attempts it succeeds.  cf<i>.close_link answers with disconnected."""
+    fails = [c.bool('open_fail%d' % i) for i in range(n)]
+    members = []
+    signals = []         # per Crazyflie its REAL callback lists (cflib.utils.callbacks.Caller): only what SyncCrazyflie registered is told
+
+    def opener(i):
+        def body(I, args, kwargs):
+            if st['attempt'] == 0 and decide(I, fails[i]):
+                if st['failmode'] == 'disconnected':
+                    c.invoke((signals[i]['disconnected'], 'call'), args[0])
+                else:
+                    c.invoke((signals[i]['connection_failed'], 'call'), args[0], 'open:%d' % i)
+            else:
+                c.invoke((signals[i]['connected'], 'call'), args[0])
+        return body
+
+    def closer(i):
+        def body(I, args, kwargs):
+            c.invoke((signals[i]['disconnected'], 'call'), URIS[i])
+        return body
+    for i in range(n):
+        signals.append({k: c.new('cflib.utils.callbacks:Caller') for k in ('connected', 'connection_failed', 'disconnected', 'fully_connected')})
+        cf = c.ext('cf%d' % i, attrs=signals[i], returns={'open_link': opener(i), 'close_link': closer(i)})
+        members.append(c.new(SCF + ':SyncCrazyflie', URIS[i], cf))
+        c.let('scf%d' % i, members[i])
+    return members
+
+
+SYNC_F = [SWM + ':Swarm.open_links', SWM + ':Swarm.close_links', SWM + ':Swarm.parallel_safe',
+          SCF + ':SyncCrazyflie.__init__', SCF + ':SyncCrazyflie._add_callbacks', SCF + ':SyncCrazyflie._remove_callbacks', SCF + ':SyncCrazyflie.open_link', SCF + ':SyncCrazyflie.close_link', SCF + ':SyncCrazyflie.is_link_open',
+          SCF + ':SyncCrazyflie._connected', SCF + ':SyncCrazyflie._connection_failed', SCF + ':SyncCrazyflie._disconnected']
+
+
+def ensure_sync_open_outcome(c, n, failmode):
+    c.ensure('raises-iff-some-link-failed-to-open', 'iff(raised is not None, %s)' % any_fail(n, 'open'))
+    for i in range(n):
+        c.ensure('crazyflie-%d-asked-to-connect-exactly-once-to-its-uri' % i,
+                 '[e[1] for e in sent("cf%d.open_link")] == [(uris[%d],)]' % (i, i))
+    if c.get('raised') is None:
+        c.ensure('success-swarm-open-and-every-link-open', 'swarm._is_open is True and ' + ' and '.join('scf%d.is_link_open() is True' % i for i in range(n)))
+        c.ensure('success-nothing-closed', ' and '.join('len(sent("cf%d.close_link")) == 0' % i for i in range(n)))
+    else:
+        c.ensure('failure-is-raised', "raised == 'Exception'")
+        if failmode == 'connection_failed':
+            c.ensure('failure-chains-one-of-the-open-errors', cause_is_raised_here(n, 'open', 'Exception'))
+        else:
+            c.ensure('failure-chains-the-open-error-of-a-link-that-failed', 'isinstance(exc.__cause__, Exception) and exc.__cause__ is not exc and (%s)' %
+                     ' or '.join('(open_fail%d and uris[%d] in str(exc.__cause__.args[0]))' % (i, i) for i in range(n)))
+        c.ensure('failure-no-link-left-open', ' and '.join('scf%d.is_link_open() is False' % i for i in range(n)))
+        for i in range(n):
+            c.ensure('failure-link-%d-closed-once-iff-it-had-opened' % i, 'len(sent("cf%d.close_link")) == (0 if open_fail%d else 1)' % (i, i))
+        c.ensure('failure-swarm-is-not-open', 'swarm._is_open is False')
+
+
+def _open_sync(n, **opts):
+    @contract('C19', 'open_links.sync.n%d' % n, SYNC_F,
               clause=P_OPEN + ' - with real SyncCrazyflie members: after a failed open_links no member link is open (every link that '
-                     'did open is closed on its Crazyflie exactly once), after a successful one every member link is open',
-              bounded='swarm size %d' % n)
+                     'did open is closed on its Crazyflie exactly once), after a successful one every member link is open; a link fails to open by a '
+                     'connection_failed or by a disconnected that arrives before the connection is established',
+              bounded='swarm size %d; all failing links fail the same way' % n, **opts)
     def k(c):
         c.model_threads(SWM)
-        fails = [c.bool('open_fail%d' % i) for i in range(n)]
-        members = []
-
-        def opener(i):
-            def body(I, args, kwargs):
-                # the Crazyflie answers the connection request through the callbacks SyncCrazyflie registered
-                if decide(I, fails[i]):
-                    c.invoke((members[i], '_connection_failed'), args[0], 'open:%d' % i)
-                else:
-                    c.invoke((members[i], '_connected'), args[0])
-            return body
-
-        def closer(i):
-            def body(I, args, kwargs):
-                c.invoke((members[i], '_disconnected'), URIS[i])
-            return body
-        for i in range(n):
-            cf = c.ext('cf%d' % i, returns={'open_link': opener(i), 'close_link': closer(i)})
-            members.append(c.new(SCF + ':SyncCrazyflie', URIS[i], cf))
-            c.let('scf%d' % i, members[i])
+        st = {'attempt': 0, 'failmode': c.choice('failmode', ['connection_failed', 'disconnected'])}
+        members = sync_members(c, n, st)
         swarm, uris, scfs = new_swarm(c, n, members=members)
         c.call((swarm, 'open_links'))
-        c.ensure('raises-iff-some-link-failed-to-open', 'iff(raised is not None, %s)' % any_fail(n, 'open'))
-        for i in range(n):
-            c.ensure('crazyflie-%d-asked-to-connect-exactly-once-to-its-uri' % i,
-                     '[e[1] for e in sent("cf%d.open_link")] == [(uris[%d],)]' % (i, i))
-        if c.get('raised') is None:
-            c.ensure('success-swarm-open-and-every-link-open', 'swarm._is_open is True and ' + ' and '.join('scf%d.is_link_open() is True' % i for i in range(n)))
-            c.ensure('success-nothing-closed', ' and '.join('len(sent("cf%d.close_link")) == 0' % i for i in range(n)))
-        else:
-            c.ensure('failure-is-raised', "raised == 'Exception'")
-            c.ensure('failure-chains-one-of-the-open-errors', cause_is_raised_here(n, 'open', 'Exception'))
-            c.ensure('failure-no-link-left-open', ' and '.join('scf%d.is_link_open() is False' % i for i in range(n)))
-            for i in range(n):
-                c.ensure('failure-link-%d-closed-once-iff-it-had-opened' % i, 'len(sent("cf%d.close_link")) == (0 if open_fail%d else 1)' % (i, i))
-            c.ensure('failure-swarm-is-not-open', 'swarm._is_open is False')
+        ensure_sync_open_outcome(c, n, st['failmode'])
     return k
 
 
 _open_sync(2)
+_open_sync(3, thorough_only=True)
+
+
+@contract('C19', 'open_links.sync.retry.n2', SYNC_F,
+          clause=P_OPEN + ' - history with real SyncCrazyflie members: a failed open_links leaves the swarm and every member as if it had never been '
+                 'opened, so that a second open_links (now every Crazyflie answers) opens every link exactly once more and the swarm is open; a third '
+                 'open_links is refused',
+          bounded='swarm size 2; the first attempt fails for every non-empty subset of the links; every schedule of the opening threads of both attempts')
+def open_sync_retry(c):
+    c.model_threads(SWM)
+    st = {'attempt': 0, 'failmode': c.choice('failmode', ['connection_failed', 'disconnected'])}
+    members = sync_members(c, 2, st)
+    swarm, uris, scfs = new_swarm(c, 2, members=members)
+    c.require(any_fail(2, 'open'))
+    c.call((swarm, 'open_links'))
+    c.ensure('first-attempt-fails-and-leaves-nothing-open', "raised == 'Exception' and swarm._is_open is False and scf0.is_link_open() is False and scf1.is_link_open() is False")
+    st['attempt'] = 1
+    c.reset_trace()
+    c.call((swarm, 'open_links'))
+    c.ensure('second-attempt-succeeds', 'raised is None and swarm._is_open is True')
+    for i in range(2):
+        c.ensure('second-attempt-connects-crazyflie-%d-exactly-once-to-its-uri' % i, '[e[1] for e in sent("cf%d.open_link")] == [(uris[%d],)]' % (i, i))
+        c.ensure('second-attempt-link-%d-open-and-not-closed' % i, 'scf%d.is_link_open() is True and len(sent("cf%d.close_link")) == 0' % (i, i))
+    c.reset_trace()
+    c.call((swarm, 'open_links'))
+    c.ensure('third-open-is-refused-and-touches-nothing', "raised == 'Exception' and len(trace) == 0 and swarm._is_open is True")
 
 
 # ------------------------------------------------------------------------- built-in swarm-wide action: reset_estimators
@@ -598,7 +684,7 @@ def _reset_estimators(n):
         def wait(I, args, kwargs):
             i = [k for k, s in enumerate(scfs) if s is args[-1]][0]
             if decide(I, fails[i]):
-                c.raiser('RuntimeError', 'act:%d' % i)()
+                c.raiser(ACT_EXC[i], 'act:%d' % i)()
         c.patch(SWM + ':Swarm._Swarm__wait_for_position_estimator', c.ext('wait_stable', returns={'()': wait}))
         c.call((swarm, 'reset_estimators'))
         for i in range(n):
@@ -613,3 +699,699 @@ def _reset_estimators(n):
 
 for _n in (1, 2, 3):
     _reset_estimators(_n)
+
+
+# =========================================================================================================================
+# extension round: given order, default factories, overlapping actions / overlapping calls (explicit schedules), histories,
+# the built-in action get_estimated_positions and the estimator wait over the real SyncLogger, larger sizes (thorough tier)
+# =========================================================================================================================
+
+PERMS3 = [(0, 1, 2), (0, 2, 1), (1, 0, 2), (1, 2, 0), (2, 0, 1), (2, 1, 0)]
+
+
+@contract('C19', 'init.order.n3', [SWM + ':Swarm.__init__'],
+          clause='the members are kept in the iteration order of the GIVEN URIs - for every order in which three URIs can be given '
+                 '(ascending, descending and the four mixed ones), as a list or as a tuple',
+          bounded='three URIs, all 6 orders; list or tuple')
+def init_order(c):
+    perm = c.choice('perm', PERMS3)
+    kind = c.choice('kind', ['list', 'tuple'])
+    given = [URIS[k] for k in perm]
+    factory, uris, scfs = make_factory(c, 3, uris=given)
+    c.call(SWM + ':Swarm', c.list(uris) if kind == 'list' else tuple(uris), factory)
+    c.ensure('no-exception', 'raised is None')
+    c.ensure('one-construct-per-uri-in-the-given-order', '[e[1] for e in sent("factory.construct")] == [(u,) for u in uris] and len(trace) == 3')
+    c.ensure('members-keyed-by-uri-in-the-given-order', 'list(result._cfs.keys()) == uris')
+    c.ensure('member-objects-in-the-given-order', 'all(list(result._cfs.values())[i] is [scf0, scf1, scf2][i] for i in range(3))')
+
+
+@contract('C19', 'sequential.order.n3', [SWM + ':Swarm.sequential', SWM + ':Swarm._process_args_dict'],
+          clause=P_SEQ + ' - for every order in which three URIs can be given, and whatever the order of the argument dictionary',
+          bounded='three URIs, all 6 orders; the argument dictionary is built in the fixed order of URIS (not the given order)')
+def sequential_order(c):
+    perm = c.choice('perm', PERMS3)
+    given = [URIS[k] for k in perm]
+    factory, uris, scfs = make_factory(c, 3, uris=given)      # scf<i> = member of the i-th GIVEN uri
+    swarm = c.new(SWM + ':Swarm', c.list(uris), factory)
+    c.let('swarm', swarm)
+    # entry of the member that was given at position i: a<i>; the dictionary itself is ordered by URIS
+    lists = [c.ints('a%d' % i, ARGLENS[i]) for i in range(3)]
+    ad = c.dict([(URIS[k], lists[perm.index(k)]) for k in range(3)])
+    action = action_stub(c, scfs, failing=False)
+    c.reset_trace()
+    c.call((swarm, 'sequential'), action, ad)
+    c.ensure('no-exception', 'raised is None and result is None')
+    c.ensure('one-action-per-member-in-the-given-order-with-its-arguments',
+             '[e[1] for e in sent("action")] == [%s]' % ', '.join(expected_args(i) for i in range(3)))
+    c.ensure('one-at-a-time-nothing-else-happens', 'len(trace) == 3')
+
+
+# ------------------------------------------------------------------------- default factories
+
+def crazyflie_class_stub(c, members):
+    """stub for the class Crazyflie: every construction yields a fresh stub cf<k> whose open_link answers 'connected' through the
+    callbacks of the SyncCrazyflie that owns it (members[k], filled in by the contract)"""
+    created = []
+
+    def opener(k):
+        def body(I, args, kwargs):
+            c.invoke((members[k], '_connected'), args[0])
+        return body
+
+    def construct(I, args, kwargs):
+        k = len(created)
+        cf = c.ext('cf%d' % k, returns={'open_link': opener(k)})
+        created.append(cf)
+        return cf
+    return c.ext('Crazyflie', returns={'()': construct}), created
+
+
+@contract('C19', 'factory.default', [SWM + ':_Factory.construct', SWM + ':Swarm.__init__', SCF + ':SyncCrazyflie.__init__', SCF + ':SyncCrazyflie.open_link'],
+          clause='a swarm built without a factory has, per given URI and in the given order, one connection (SyncCrazyflie) of its own with a '
+                 'Crazyflie of its own: opening member i connects exactly the i-th Crazyflie object to the i-th URI (no two members share a '
+                 'connection or a Crazyflie, so an action cannot reach one Crazyflie twice)',
+          bounded='swarm size 3; the class Crazyflie is a stub that hands out fresh objects')
+def factory_default(c):
+    members = []
+    cfcls, created = crazyflie_class_stub(c, members)
+    c.patch(SCF + ':Crazyflie', cfcls)
+    c.let('uris', list(URIS[:3]))
+    c.call(SWM + ':Swarm', c.list(URIS[:3]))
+    c.ensure('no-exception', 'raised is None')
+    c.let('swarm', c.get('result'))
+    c.ensure('members-keyed-by-uri-in-order', 'list(swarm._cfs.keys()) == uris')
+    c.ensure('three-crazyflie-objects-constructed', "len(sent('Crazyflie')) == 3")
+    for i in range(3):
+        members.append(c.snapshot('m%d' % i, 'list(swarm._cfs.values())[%d]' % i))
+    c.ensure('members-are-distinct-connections', "all(typename(m) == 'SyncCrazyflie' for m in (m0, m1, m2)) and m0 is not m1 and m0 is not m2 and m1 is not m2")
+    c.ensure('each-member-has-its-own-crazyflie', 'm0.cf is cf0 and m1.cf is cf1 and m2.cf is cf2')
+    for i in range(3):
+        c.reset_trace()
+        c.call((members[i], 'open_link'))
+        c.ensure('opening-member-%d-connects-its-own-crazyflie-to-its-own-uri' % i,
+                 "raised is None and [(e[0], e[1]) for e in trace if e[0].endswith('.open_link')] == [('cf%d.open_link', (uris[%d],))]" % (i, i))
+        c.ensure('member-%d-open-others-as-before' % i, ' and '.join('m%d.is_link_open() is %s' % (j, j <= i) for j in range(3)))
+
+
+@contract('C19', 'factory.cached', [SWM + ':CachedCfFactory.__init__', SWM + ':CachedCfFactory.construct', SCF + ':SyncCrazyflie.__init__',
+                                   SCF + ':SyncCrazyflie.open_link'],
+          clause='the caching factory yields, per construct(uri) call, a new connection (SyncCrazyflie) for that URI around a new Crazyflie built with '
+                 'the factory\'s read-only and read-write cache locations: opening member i connects exactly its own Crazyflie to its own URI, and '
+                 'members never share a Crazyflie',
+          bounded='two construct calls on one factory; caches given / defaulted; the class Crazyflie is a stub that hands out fresh objects')
+def factory_cached(c):
+    members = []
+    cfcls, created = crazyflie_class_stub(c, members)
+    c.patch(SWM + ':Crazyflie', cfcls)
+    c.patch(SCF + ':Crazyflie', c.ext('CrazyflieOfSync'))        # must not be used: the factory supplies the Crazyflie
+    given = c.choice('caches', ['both', 'keywords', 'none'])
+    ro, rw = c.let('ro', './ro-cache'), c.let('rw', './rw-cache')
+    if given == 'both':
+        factory = c.new(SWM + ':CachedCfFactory', ro, rw)
+    elif given == 'keywords':
+        factory = c.new(SWM + ':CachedCfFactory', rw_cache=rw, ro_cache=ro)
+    else:
+        factory = c.new(SWM + ':CachedCfFactory')
+        c.let('ro', None)
+        c.let('rw', None)
+    c.let('uris', list(URIS[:2]))
+    c.reset_trace()
+    for i in range(2):
+        c.call((factory, 'construct'), URIS[i])
+        c.ensure('construct-%d-no-exception' % i, 'raised is None')
+        members.append(c.let('m%d' % i, c.get('result')))
+    c.ensure('one-crazyflie-per-construct', "len(sent('Crazyflie')) == 2 and len(sent('CrazyflieOfSync')) == 0")
+    # Crazyflie(link=None, ro_cache=None, rw_cache=None): by keyword or by position
+    c.ensure('crazyflie-built-with-the-factory-caches',
+             "all((e[2]['ro_cache'] if 'ro_cache' in e[2] else (e[1][1] if len(e[1]) > 1 else None)) == ro and "
+             "(e[2]['rw_cache'] if 'rw_cache' in e[2] else (e[1][2] if len(e[1]) > 2 else None)) == rw for e in sent('Crazyflie'))")
+    c.ensure('members-are-distinct-connections', "typename(m0) == 'SyncCrazyflie' and typename(m1) == 'SyncCrazyflie' and m0 is not m1")
+    c.ensure('each-member-has-its-own-crazyflie', 'm0.cf is cf0 and m1.cf is cf1')
+    for i in range(2):
+        c.reset_trace()
+        c.call((members[i], 'open_link'))
+        c.ensure('opening-member-%d-connects-its-own-crazyflie-to-its-own-uri' % i,
+                 "raised is None and [(e[0], e[1]) for e in trace if e[0].endswith('.open_link')] == [('cf%d.open_link', (uris[%d],))]" % (i, i))
+
+
+# ------------------------------------------------------------------------- explicit schedules: overlapping actions, overlapping calls
+
+def nested_threads(c, order):
+    """Explicit schedule that the atomic-body thread model (c.model_threads) cannot produce: the actions OVERLAP in time.
+    `swarm.Thread` is replaced by a stub written here.  start() only registers the thread; at the first untimed join() of the
+    main thread the body of the first registered thread (in `order`) begins, and every action, while it is executing (entered, not
+    yet returned or raised), is pre-empted by the body of the next thread - so action 0 is still running while action 1 runs,
+    which is still running while action 2 runs.  A thread that is never joined (or only with a time-out) never gets to run in this
+    schedule.  Returns (hook, log): the action stub must call hook(I) on entry; log lists ('enter'|'exit', thread index)."""
+    threads, pending, log = [], [], []
+    st = {'started': False}
+
+    def items_of(I, v):
+        return list(v) if I is None else I.iterate_all(v)
+
+    def run_next(I):
+        if pending:
+            k = pending.pop(0)
+            th = threads[k]
+            log.append(('enter', k))
+            try:
+                c.invoke(th['target'], *items_of(I, th['args']))
+            finally:
+                log.append(('exit', k))
+
+    def make(I, args, kwargs):
+        k = len(threads)
+        th = {'target': kwargs.get('target'), 'args': kwargs.get('args', ()), 'state': 'new'}
+        threads.append(th)
+
+        def start(I_, a, kw):
+            if th['state'] != 'new':
+                return c.raiser('RuntimeError', 'threads can only be started once')()
+            th['state'] = 'started'
+            return None
+
+        def join(I_, a, kw):
+            if th['state'] == 'new':
+                return c.raiser('RuntimeError', 'cannot join thread before it is started')()
+            timed = (len(a) > 0 and a[0] is not None) or kw.get('timeout') is not None
+            if not timed and not st['started']:
+                st['started'] = True
+                pending.extend(j for j in order if j < len(threads) and threads[j]['state'] == 'started')
+                pending.extend(j for j in range(len(threads)) if j not in pending and threads[j]['state'] == 'started')
+                run_next(I_)
+            return None
+        return c.ext('th%d' % k, returns={'start': start, 'join': join, 'is_alive': lambda *_a: False})
+    c.patch(SWM + ':Thread', c.ext('Thread', returns={'()': make}))
+    return run_next, log
+
+
+def _overlapping_actions(which, n, **opts):
+    safe = which == 'parallel_safe'
+
+    @contract('C19', '%s.overlapping-actions.n%d' % (which, n),
+              [SWM + ':Swarm.' + which, SWM + ':Swarm._thread_function_wrapper', SWM + ':Swarm._process_args_dict', SWM + ':Swarm.Reporter.report_error'],
+              clause=(P_PAR if safe else P_ONCE + '; parallel never raises') +
+              ' - when the actions really overlap in time (every action is still executing while the next member\'s action runs from start to end), '
+              'for every subset of failing members: nothing the library keeps per action is shared between two running actions, and no action '
+              'has to wait for another one to finish',
+              bounded='swarm size %d; explicit schedule: stack-like overlap (action i is pre-empted on entry by the whole body of the next thread), '
+                      'threads entered in start order or in reverse start order' % n, **opts)
+    def k(c):
+        order = c.choice('entered', ['start-order', 'reverse'])
+        idx = list(range(n)) if order == 'start-order' else list(reversed(range(n)))
+        hook, log = nested_threads(c, idx)
+        swarm, uris, scfs = new_swarm(c, n)
+        ad = args_dict(c, n, uris)[0]
+        fails = [c.bool('act_fail%d' % i) for i in range(n)]
+
+        def body(I, args, kwargs):
+            i = [k_ for k_, s in enumerate(scfs) if s is args[0]][0]
+            hook(I)                                   # pre-empted here: the next member's thread body runs to its end
+            if decide(I, fails[i]):
+                c.raiser(ACT_EXC[i], 'act:%d' % i)()
+        action = c.ext('action', returns={'()': body})
+        c.call((swarm, which), action, ad)
+        ensure_each_action_once(c, n)
+        c.let('log', list(log))
+        c.ensure('every-thread-body-ran-once-and-finished-before-return',
+                 "sorted(e[1] for e in log if e[0] == 'enter') == list(range(%d)) and sorted(e[1] for e in log if e[0] == 'exit') == list(range(%d))" % (n, n))
+        if safe:
+            c.ensure('raises-iff-some-action-raised', 'iff(raised is not None, %s)' % any_fail(n))
+            if c.get('raised') is not None:
+                c.ensure('raises-Exception', "raised == 'Exception'")
+                c.ensure('chains-one-of-the-errors-raised-by-this-call', cause_is_raised_here(n))
+        else:
+            c.ensure('never-raises', 'raised is None and result is None')
+    return k
+
+
+_overlapping_actions('parallel_safe', 2)
+_overlapping_actions('parallel_safe', 3)
+_overlapping_actions('parallel', 2)
+
+
+def simple_threads(c, when):
+    """explicit schedule: `swarm.Thread` is a stub whose body runs inside start() (when='eager': the thread is faster than its creator) or
+    inside the first untimed join() of that thread (when='lazy': the thread only gets the processor when somebody waits for it)"""
+    def items_of(I, v):
+        return list(v) if I is None else I.iterate_all(v)
+
+    def make(I, args, kwargs):
+        th = {'state': 'new'}
+
+        def run(I_):
+            th['state'] = 'done'
+            exc = c.invoke_catch(kwargs.get('target'), *items_of(I_, kwargs.get('args', ())))
+            if exc in ('Deadlock', 'StopLoop'):
+                c.raiser(exc, 'in a member thread')()
+
+        def start(I_, a, kw):
+            if th['state'] != 'new':
+                return c.raiser('RuntimeError', 'threads can only be started once')()
+            th['state'] = 'started'
+            if when == 'eager':
+                run(I_)
+            return None
+
+        def join(I_, a, kw):
+            if th['state'] == 'new':
+                return c.raiser('RuntimeError', 'cannot join thread before it is started')()
+            timed = (len(a) > 0 and a[0] is not None) or kw.get('timeout') is not None
+            if th['state'] == 'started' and not timed:
+                run(I_)
+            return None
+        return c.ext('th', returns={'start': start, 'join': join, 'is_alive': lambda *_a: th['state'] == 'started'})
+    c.patch(SWM + ':Thread', c.ext('Thread', returns={'()': make}))
+
+
+def _overlapping_calls(n, every_schedule=False, **opts):
+    @contract('C19', 'parallel_safe.overlapping-calls.%sn%d' % ('every-schedule.' if every_schedule else '', n),
+              [SWM + ':Swarm.parallel_safe', SWM + ':Swarm._thread_function_wrapper', SWM + ':Swarm.Reporter.__init__', SWM + ':Swarm.Reporter.report_error',
+               SWM + ':Swarm.Reporter.is_error_reported'],
+              clause='two swarm-wide calls on ONE swarm that overlap in time (the second is made while an action of the first is still running, e.g. '
+                     'from that action or from another application thread) do not disturb each other: in each call every action runs exactly once with '
+                     'its member\'s connection and arguments, and each call raises iff one of ITS OWN actions raised, chaining one of ITS errors',
+              bounded=('swarm size %d; the inner call is made from inside the action of member 0 of the outer call and only its member 0 may fail; every '
+                       'schedule of the member threads of both calls (atomic bodies)' % n) if every_schedule else
+                      ('swarm size %d; the inner call is made from inside the action of member 0 or member %d of the outer call; two explicit schedules: every '
+                       'thread body runs inside start(), or inside the join() of its thread' % (n, n - 1)), **opts)
+    def k(c):
+        if every_schedule:
+            c.model_threads(SWM)
+        else:
+            simple_threads(c, c.choice('threads_run', ['eager', 'lazy']))
+        swarm, uris, scfs = new_swarm(c, n)
+        ad = args_dict(c, n, uris)[0]
+        who = 0 if every_schedule else c.choice('inner_call_made_by_member', sorted({0, n - 1}))
+        if every_schedule:
+            infails = [c.bool('in_fail0')] + [c.let('in_fail%d' % i, False) for i in range(1, n)]
+            inner = action_stub(c, scfs, name='inner', tag='in', fails=infails)
+        else:
+            inner = action_stub(c, scfs, name='inner', tag='in')
+        fails = [c.bool('act_fail%d' % i) for i in range(n)]
+        got = {'inner': 'not-called'}
+
+        def body(I, args, kwargs):
+            i = [k_ for k_, s in enumerate(scfs) if s is args[0]][0]
+            if i == who:
+                got['inner'] = c.invoke_catch((swarm, 'parallel_safe'), inner)
+            if decide(I, fails[i]):
+                c.raiser(ACT_EXC[i], 'act:%d' % i)()
+        action = c.ext('action', returns={'()': body})
+        c.call((swarm, 'parallel_safe'), action, ad)
+        ensure_each_action_once(c, n)
+        ensure_each_action_once(c, n, name='inner', with_args=False)
+        c.ensure('outer-call-raises-iff-one-of-its-own-actions-raised', 'iff(raised is not None, %s)' % any_fail(n))
+        if c.get('raised') is not None:
+            c.ensure('outer-call-chains-one-of-its-own-errors', "raised == 'Exception' and " + cause_is_raised_here(n))
+        c.let('inner_raised', got['inner'])
+        c.ensure('inner-call-raises-iff-one-of-its-own-actions-raised', "iff(inner_raised == 'Exception', %s) and inner_raised in (None, 'Exception')" % any_fail(n, 'in'))
+    return k
+
+
+_overlapping_calls(2)
+_overlapping_calls(3)
+_overlapping_calls(2, every_schedule=True, thorough_only=True)
+
+
+# ------------------------------------------------------------------------- built-in swarm-wide actions over the REAL SyncLogger
+
+SYN = 'cflib.crazyflie.syncLogger'
+SYNC_LOGGER_F = [SYN + ':SyncLogger.__init__', SYN + ':SyncLogger.connect', SYN + ':SyncLogger.disconnect', SYN + ':SyncLogger.__enter__',
+                 SYN + ':SyncLogger.__exit__', SYN + ':SyncLogger.__iter__', SYN + ':SyncLogger.__next__', SYN + ':SyncLogger._log_callback']
+
+
+class LogWorld:
+    """n REAL SyncCrazyflie members over stub Crazyflie objects cf<i> (cf<i>.link_uri = URI i) and a stub for the class LogConfig.  The log
+    subsystem of Crazyflie i is played here: cf<i>.log.add_config(conf) raises ACT_EXC[i]('act:<i>') iff fails[i] (the variable is not in the
+    TOC of that Crazyflie), otherwise remembers that conf belongs to member i; conf.start() then delivers entries(i) - a list of
+    (timestamp, data-dict) - through the callbacks registered on conf.data_received_cb, i.e. into the REAL SyncLogger the library built."""
+
+    def __init__(self, c, n, entries, fails=None, lazy=False):
+        self.c, self.n = c, n
+        self.lazy = lazy         # lazy: a sample is only delivered when the reader is waiting for one (see _new_queue)
+        self.active = []
+        self.gets = []           # per queue the library created: number of samples the reader took
+        self.fails = fails if fails is not None else [c.bool('act_fail%d' % i) for i in range(n)]
+        self.confs = []          # every LogConfig the library created: {'ext', 'cbs', 'owner', 'kwargs'}
+        self.members = []
+        for i in range(n):
+            cf = c.ext('cf%d' % i, attrs={'link_uri': URIS[i]}, returns={'log.add_config': self._add_config(i)})
+            self.members.append(c.new(SCF + ':SyncCrazyflie', URIS[i], cf))
+            c.let('scf%d' % i, self.members[i])
+        self.entries = entries
+        c.patch(SWM + ':LogConfig', c.ext('LogConfig', returns={'()': self._new_config}))
+        if lazy:
+            c.patch(SYN + ':Queue', c.ext('Queue', returns={'()': self._new_queue}))
+
+    def _new_queue(self, I, args, kwargs):
+        """the queue of a SyncLogger under an explicit schedule: when the reader finds it empty, the incoming-packet thread delivers the next
+        sample of the configuration that is running (started last, not stopped); with no sample left the reader blocks for ever"""
+        c = self.c
+        items = []
+        q = len(self.gets)
+        self.gets.append(0)
+
+        def put(I_, a, kw):
+            items.append(a[0])
+
+        def get(I_, a, kw):
+            if not items and self.active:
+                k = self.active[-1]
+                es = self.entries(k['owner'])
+                if k['cursor'] < len(es):
+                    ts, data = es[k['cursor']]
+                    k['cursor'] += 1
+                    for cb in list(k['cbs']):
+                        c.invoke(cb, ts, data, k['ext'])
+            if not items:
+                return c.raiser('Deadlock', 'the reader waits for a sample that never comes')()
+            self.gets[q] += 1
+            return items.pop(0)
+        return c.ext('queue%d' % q, returns={'put': put, 'get': get, 'empty': lambda *_a: not items, 'qsize': lambda *_a: len(items)})
+
+    def _conf_of(self, ext):
+        return [k for k in self.confs if k['ext'] is ext][0]
+
+    def _add_config(self, i):
+        def body(I, args, kwargs):
+            if decide(I, self.fails[i]):
+                self.c.raiser(ACT_EXC[i], 'act:%d' % i)()
+            self._conf_of(args[0])['owner'] = i
+        return body
+
+    def _new_config(self, I, args, kwargs):
+        c = self.c
+        k = {'cbs': [], 'owner': None, 'args': args, 'kwargs': kwargs, 'cursor': 0}
+
+        def add_cb(I_, a, kw):
+            k['cbs'].append(a[0])
+
+        def remove_cb(I_, a, kw):
+            k['cbs'][:] = k['cbs'][1:] if k['cbs'] else c.raiser('ValueError', 'callback not registered')()
+
+        def start(I_, a, kw):
+            if k['owner'] is None:
+                c.raiser('AttributeError', 'configuration was not added to a Crazyflie')()
+            if self.lazy:
+                self.active.append(k)
+                return
+            for ts, data in self.entries(k['owner']):
+                for cb in list(k['cbs']):
+                    c.invoke(cb, ts, data, k['ext'])
+
+        def stop(I_, a, kw):
+            if k in self.active:
+                self.active.remove(k)
+        k['ext'] = c.ext('conf%d' % len(self.confs), returns={'data_received_cb.add_callback': add_cb, 'data_received_cb.remove_callback': remove_cb,
+                                                              'start': start, 'stop': stop})
+        self.confs.append(k)
+        return k['ext']
+
+    def swarm(self):
+        return new_swarm(self.c, self.n, members=self.members)
+
+    def conf_index_of_member(self, i):
+        ks = [j for j, k in enumerate(self.confs) if k['owner'] == i]
+        return ks
+
+
+def ensure_threads_finished(c, n):
+    for i in range(n):
+        c.ensure('thread-%d-started-once-ran-once-finished-and-joined-before-return' % i,
+                 ' and '.join("calls('thread!%d.').count('thread!%d.%s') %s" % (i, i, ev, cnt)
+                              for ev, cnt in (('start', '== 1'), ('run', '== 1'), ('end', '== 1'), ('join', '>= 1'), ('uncaught', '== 0'))))
+
+
+def _estimated_positions(n, **opts):
+    @contract('C19', 'get_estimated_positions.n%d' % n,
+              [SWM + ':Swarm.get_estimated_positions', SWM + ':Swarm._Swarm__get_estimated_position', SWM + ':Swarm.parallel_safe',
+               SWM + ':Swarm._thread_function_wrapper'] + SYNC_LOGGER_F,
+              clause=P_PAR + ' - the library\'s own swarm-wide action get_estimated_positions: the position of every member is logged exactly once '
+                             '(one log configuration with the three stateEstimate variables, added to THAT member\'s Crazyflie, started once and stopped and '
+                             'deleted again before the call returns); the call raises iff logging failed for at least one member, otherwise it returns, per '
+                             'URI, the first position sample of that member\'s own Crazyflie',
+              bounded=(B_N % n) + '; real SyncCrazyflie members and the real SyncLogger over stub Crazyflie / LogConfig objects; two samples per member '
+                                  '(symbolic floats); logging fails (add_config raises) for every subset of the members; every schedule of the member threads', **opts)
+    def k(c):
+        c.model_threads(SWM)
+        pos = [[c.float('p%d%s' % (i, ax)) for ax in 'xyz'] for i in range(n)]
+        later = [[c.float('q%d%s' % (i, ax)) for ax in 'xyz'] for i in range(n)]
+
+        def entries(i):
+            return [(10 * (j + 1), c.dict([('stateEstimate.' + ax, v) for ax, v in zip('xyz', vals)])) for j, vals in enumerate((pos[i], later[i]))]
+        w = LogWorld(c, n, entries)
+        swarm, uris, scfs = w.swarm()
+        c.call((swarm, 'get_estimated_positions'))
+        c.ensure('one-log-configuration-per-member', "len(sent('LogConfig')) == %d" % n)
+        for i in range(n):
+            c.ensure('member-%d-configuration-added-to-its-own-crazyflie-exactly-once' % i, "len(sent('cf%d.log.add_config')) == 1" % i)
+            ks = w.conf_index_of_member(i)
+            c.let('ok%d' % i, len(ks) == 1)
+            c.ensure('member-%d-logged-iff-its-log-works' % i, 'ok%d is (not act_fail%d)' % (i, i))
+            if len(ks) == 1:
+                j = ks[0]
+                c.ensure('member-%d-logs-the-three-position-variables' % i,
+                         "sorted(e[1][0] for e in sent('conf%d.add_variable')) == ['stateEstimate.x', 'stateEstimate.y', 'stateEstimate.z']" % j)
+                c.ensure('member-%d-logging-started-once-then-stopped-and-deleted-before-return' % i,
+                         "[x for x in calls('conf%d.') if x.split('.')[-1] in ('start', 'stop', 'delete')] == ['conf%d.start', 'conf%d.stop', 'conf%d.delete']" % (j, j, j, j))
+        ensure_threads_finished(c, n)
+        c.ensure('raises-iff-logging-failed-for-some-member', 'iff(raised is not None, %s)' % any_fail(n))
+        if c.get('raised') is not None:
+            c.ensure('raises-Exception', "raised == 'Exception'")
+            c.ensure('chains-one-of-the-errors-raised-by-this-call', cause_is_raised_here(n))
+        else:
+            c.ensure('one-position-per-uri', "typename(result) == 'dict' and sorted(result.keys()) == sorted(uris)")
+            for i in range(n):
+                c.ensure('member-%d-position-is-the-first-sample-of-its-own-crazyflie' % i,
+                         "typename(result[uris[%d]]) == 'SwarmPosition' and same_float(result[uris[%d]].x, p%dx) and "
+                         "same_float(result[uris[%d]].y, p%dy) and same_float(result[uris[%d]].z, p%dz)" % (i, i, i, i, i, i, i))
+    return k
+
+
+_estimated_positions(1)
+_estimated_positions(2)
+
+
+VAR_BASE = 0.5
+
+
+def variance_script(jump_at, jump_axis, step, total):
+    """`total` samples of the three Kalman variances: VAR_BASE everywhere, except that `jump_axis` is VAR_BASE + step from sample number
+    jump_at (1-based) on; jump_at = 0: no jump"""
+    out = []
+    for j in range(1, total + 1):
+        vals = {ax: VAR_BASE + (step if (jump_at and ax == jump_axis and j >= jump_at) else 0.0) for ax in 'XYZ'}
+        out.append((500 * j, vals))
+    return out
+
+
+@contract('C19', 'wait_for_position_estimator', [SWM + ':Swarm._Swarm__wait_for_position_estimator'] + SYNC_LOGGER_F,
+          clause='(part of the library\'s own swarm-wide action reset_estimators) the wait for a stable position of one member logs the three Kalman '
+                 'variances of THAT member\'s Crazyflie and ends - the action finishes - exactly at the first sample at which each variance has varied by '
+                 'less than 0.001 over its last ten samples (the history starts as ten times 1000), not earlier and not later; the logging is stopped '
+                 'and deleted again when it ends',
+          bounded='concrete variance sequences: constant 0.5, or one axis (x, y or z) stepping at sample 3 or 9 by 0.0005 (inside the threshold: '
+                  'no restart) or 0.002 (outside: ten more samples are needed); explicit schedule: a sample arrives when the reader waits for it')
+def wait_for_position_estimator(c):
+    jump_at = c.choice('jump_at', [0, 3, 9])
+    axis = c.choice('jump_axis', ['X', 'Y', 'Z']) if jump_at else 'X'
+    step = c.choice('step', [0.0005, 0.002]) if jump_at else 0.0
+    expected = 10 if (jump_at == 0 or step < 0.001) else jump_at + 9
+    script = variance_script(jump_at, axis, step, expected + 3)
+
+    def entries(i):
+        return [(ts, c.dict([('kalman.varP' + ax, vals[ax]) for ax in 'XYZ'])) for ts, vals in script]
+    w = LogWorld(c, 1, entries, fails=[False], lazy=True)
+    swarm, uris, scfs = w.swarm()
+    c.call((swarm, '_Swarm__wait_for_position_estimator'), scfs[0])
+    c.ensure('the-wait-ends', 'raised is None and result is None')
+    c.let('taken', list(w.gets))
+    c.ensure('ends-exactly-at-the-first-stable-sample', 'taken == [%d]' % expected)
+    c.ensure('one-configuration-on-the-members-crazyflie', "len(sent('LogConfig')) == 1 and len(sent('cf0.log.add_config')) == 1")
+    c.ensure('logs-the-three-variances', "sorted(e[1][0] for e in sent('conf0.add_variable')) == ['kalman.varPX', 'kalman.varPY', 'kalman.varPZ']")
+    c.ensure('logging-started-once-then-stopped-and-deleted',
+             "[x for x in calls('conf0.') if x.split('.')[-1] in ('start', 'stop', 'delete')] == ['conf0.start', 'conf0.stop', 'conf0.delete']")
+
+
+@contract('C19', 'wait_for_position_estimator.any-level', [SWM + ':Swarm._Swarm__wait_for_position_estimator'] + SYNC_LOGGER_F,
+          clause='(part of reset_estimators) whatever the level of the three variances: when they do not change, the wait ends exactly at the tenth '
+                 'sample (the initial history of ten times 1000 has then left the window)',
+          bounded='variances constant over time at symbolic levels in [0, 998]')
+def wait_any_level(c):
+    lv = {ax: c.float('v' + ax, finite=True) for ax in 'XYZ'}
+    for ax in 'XYZ':
+        c.require('0.0 <= v%s and v%s <= 998.0' % (ax, ax))
+
+    def entries(i):
+        return [(500 * j, c.dict([('kalman.varP' + ax, lv[ax]) for ax in 'XYZ'])) for j in range(1, 14)]
+    w = LogWorld(c, 1, entries, fails=[False], lazy=True)
+    swarm, uris, scfs = w.swarm()
+    c.call((swarm, '_Swarm__wait_for_position_estimator'), scfs[0])
+    c.ensure('the-wait-ends', 'raised is None and result is None')
+    c.let('taken', list(w.gets))
+    c.ensure('ends-exactly-at-the-tenth-sample', 'taken == [10]')
+
+
+def _reset_real_wait(n, **opts):
+    @contract('C19', 'reset_estimators.real-wait.n%d' % n,
+              [SWM + ':Swarm.reset_estimators', SWM + ':Swarm._Swarm__reset_estimator', SWM + ':Swarm._Swarm__wait_for_position_estimator',
+               SWM + ':Swarm.parallel_safe', SWM + ':Swarm._thread_function_wrapper'] + SYNC_LOGGER_F,
+              clause=P_PAR + ' - the library\'s own swarm-wide action reset_estimators with its real wait: per member the estimator is reset once (1, then 0) on '
+                             'THAT member\'s Crazyflie, its variances are logged until they are stable and the logging is removed again before the call returns; '
+                             'the call raises iff the action of at least one member raised',
+              bounded=(B_N % n) + '; real SyncCrazyflie members and the real SyncLogger over stub Crazyflie / LogConfig objects; constant variances (stable at '
+                                  'the tenth sample); the variance log cannot be set up (add_config raises) for every subset of the members; every schedule of '
+                                  'the member threads', **opts)
+    def k(c):
+        c.model_threads(SWM)
+        c.virtual_time()
+        script = variance_script(0, 'X', 0.0, 12)
+
+        def entries(i):
+            return [(ts, c.dict([('kalman.varP' + ax, vals[ax]) for ax in 'XYZ'])) for ts, vals in script]
+        w = LogWorld(c, n, entries, lazy=True)
+        swarm, uris, scfs = w.swarm()
+        c.call((swarm, 'reset_estimators'))
+        for i in range(n):
+            c.ensure('member-%d-reset-once-1-then-0-on-its-own-crazyflie' % i,
+                     "[e[1] for e in sent('cf%d.param.set_value')] == [('kalman.resetEstimation', '1'), ('kalman.resetEstimation', '0')]" % i)
+            c.ensure('member-%d-variance-log-set-up-once-on-its-own-crazyflie' % i, "len(sent('cf%d.log.add_config')) == 1" % i)
+            ks = w.conf_index_of_member(i)
+            c.let('ok%d' % i, len(ks) == 1)
+            c.ensure('member-%d-waited-iff-its-log-works' % i, 'ok%d is (not act_fail%d)' % (i, i))
+            if len(ks) == 1:
+                j = ks[0]
+                c.ensure('member-%d-logging-started-once-then-stopped-and-deleted-before-return' % i,
+                         "[x for x in calls('conf%d.') if x.split('.')[-1] in ('start', 'stop', 'delete')] == ['conf%d.start', 'conf%d.stop', 'conf%d.delete']" % (j, j, j, j))
+        c.let('taken', sorted(w.gets))
+        c.let('nfail', sum(1 for i in range(n) if len(w.conf_index_of_member(i)) != 1))
+        c.ensure('every-working-member-waited-until-stable', 'taken == [0] * nfail + [10] * (%d - nfail)' % n)
+        ensure_threads_finished(c, n)
+        c.ensure('raises-iff-some-reset-raised', 'iff(raised is not None, %s)' % any_fail(n))
+        if c.get('raised') is not None:
+            c.ensure('raises-Exception', "raised == 'Exception'")
+            c.ensure('chains-one-of-the-errors-raised-by-this-call', cause_is_raised_here(n))
+    return k
+
+
+_reset_real_wait(2)
+
+
+# ------------------------------------------------------------------------- argument dictionary without the entry of a member
+
+@contract('C19', 'parallel_safe.missing-entry.n2', [SWM + ':Swarm.parallel_safe', SWM + ':Swarm._process_args_dict', SWM + ':Swarm._thread_function_wrapper'],
+          clause='parallel_safe returns only after every action has finished - "for all argument dictionaries": also when the dictionary lacks the entry of '
+                 'a member (the call then ends with KeyError), no action that was started is still running when the call is over',
+          bounded='swarm size 2; the dictionary has the entry of the first member only; every schedule of the member threads',
+          thorough_only=True)       # RED on the unchanged tree (candidate finding, see the report): the started thread is never joined
+def parallel_missing_entry(c):
+    c.model_threads(SWM)
+    swarm, uris, scfs = new_swarm(c, 2)
+    a0 = c.ints('a0', 2)
+    action = action_stub(c, scfs, failing=False)
+    c.call((swarm, 'parallel_safe'), action, c.dict([(uris[0], a0)]))
+    c.ensure('the-call-reports-the-missing-entry', "raised == 'KeyError'")
+    c.ensure('no-action-for-the-member-without-entry', "len([e for e in sent('action') if e[1][0] is scf1]) == 0")
+    c.ensure('every-started-action-has-finished-when-the-call-is-over',
+             "len([x for x in calls('thread!') if x.endswith('.start')]) == len([x for x in calls('thread!') if x.endswith('.end')])")
+
+
+@contract('C19', 'parallel_safe.missing-first-entry.n2', [SWM + ':Swarm.parallel_safe', SWM + ':Swarm._process_args_dict'],
+          clause='(code behaviour, outside the property) an argument dictionary that lacks the entry of the FIRST member: KeyError before any action is started',
+          bounded='swarm size 2')
+def parallel_missing_first_entry(c):
+    c.model_threads(SWM)
+    swarm, uris, scfs = new_swarm(c, 2)
+    a1 = c.ints('a1', 1)
+    action = action_stub(c, scfs, failing=False)
+    c.call((swarm, 'parallel_safe'), action, c.dict([(uris[1], a1)]))
+    c.ensure('KeyError-and-nothing-started', "raised == 'KeyError' and len(sent('action')) == 0 and len([x for x in calls('thread!') if x.endswith('.start')]) == 0")
+
+
+# ------------------------------------------------------------------------- larger sizes
+
+for _n in (4,):
+    _init(_n)
+    _sequential(_n, True)
+    _close_links(_n)
+for _n in (6,):
+    _init(_n, thorough_only=True)
+    _sequential(_n, True, thorough_only=True)
+    _close_links(_n, thorough_only=True)
+
+
+def fixed_fails(c, n, mask, tag='act'):
+    """the failing members are fixed by the contract (bit i of mask), registered under the usual names <tag>_fail<i>"""
+    return [c.let('%s_fail%d' % (tag, i), bool(mask >> i & 1)) for i in range(n)]
+
+
+def _parallel_mask(which, n, mask):
+    safe = which == 'parallel_safe'
+    who = ''.join(str(i) for i in range(n) if mask >> i & 1) or 'none'
+
+    @contract('C19', '%s.n%d.failing-%s' % (which, n, who),
+              [SWM + ':Swarm.' + which, SWM + ':Swarm._thread_function_wrapper', SWM + ':Swarm._process_args_dict',
+               SWM + ':Swarm.Reporter.report_error', SWM + ':Swarm.Reporter.is_error_reported'],
+              clause=(P_PAR if safe else P_ONCE + '; parallel returns only after every action has finished and never raises') +
+              ' - for every schedule of the member threads; the actions of the members {%s} raise' % who,
+              bounded='swarm size %d, one contract per subset of failing members%s; argument-dictionary entries of length 2, 0, 1, 3' %
+                      (n, '' if safe else ' (none, one in the middle, all)'), thorough_only=True, max_paths=20000)
+    def k(c):
+        c.model_threads(SWM)
+        swarm, uris, scfs = new_swarm(c, n)
+        ad = args_dict(c, n, uris)[0]
+        action = action_stub(c, scfs, fails=fixed_fails(c, n, mask))
+        c.call((swarm, which), action, ad)
+        ensure_each_action_once(c, n)
+        ensure_threads(c, n)
+        c.ensure('every-action-finished-before-return', 'len(calls("action")) == %d and calls().count("action") == len([x for x in calls() if x.endswith(".end")])' % n)
+        if safe:
+            c.ensure('raises-iff-some-action-raised', 'iff(raised is not None, %s)' % any_fail(n))
+            if c.get('raised') is not None:
+                c.ensure('raises-Exception', "raised == 'Exception'")
+                c.ensure('chains-one-of-the-errors-raised-by-this-call', cause_is_raised_here(n))
+            else:
+                c.ensure('returns-None', 'result is None')
+        else:
+            c.ensure('never-raises', 'raised is None and result is None')
+    return k
+
+
+for _mask in range(16):
+    _parallel_mask('parallel_safe', 4, _mask)
+for _mask in (0, 4, 15):
+    _parallel_mask('parallel', 4, _mask)
+
+
+def _open_links_mask(n, mask):
+    who = ''.join(str(i) for i in range(n) if mask >> i & 1) or 'none'
+
+    @contract('C19', 'open_links.n%d.failing-%s' % (n, who), [SWM + ':Swarm.open_links', SWM + ':Swarm.close_links', SWM + ':Swarm.parallel_safe',
+                                                             SWM + ':Swarm._thread_function_wrapper'],
+              clause=P_OPEN + ' - for every schedule of the opening threads; the links {%s} fail to open' % who,
+              bounded='swarm size %d, one contract per subset of failing links' % n, thorough_only=True, max_paths=20000)
+    def k(c):
+        c.model_threads(SWM)
+        fails = fixed_fails(c, n, mask, 'open')
+
+        def opener(i):
+            def body(I, args, kwargs):
+                if fails[i]:
+                    c.raiser('Exception', 'open:%d' % i)()
+            return body
+        members = [c.ext('scf%d' % i, returns={'open_link': opener(i)}) for i in range(n)]
+        swarm, uris, scfs = new_swarm(c, n, members=members)
+        c.call((swarm, 'open_links'))
+        ensure_open_outcome(c, n)
+    return k
+
+
+for _mask in range(16):
+    _open_links_mask(4, _mask)
+
+
+_estimated_positions(3, thorough_only=True)
+_reset_real_wait(3, thorough_only=True)
+_overlapping_actions('parallel_safe', 4, thorough_only=True)
+_overlapping_actions('parallel_safe', 5, thorough_only=True)
